@@ -19,6 +19,8 @@ Record obs := {
 Record case := {
   c_wits : list acct ; c_cap : Z ; c_supply : acct ;
   c_txs : list (txid * txinfo) ;
+  c_keys : list acct ;     (* accounts that are the address of a signing key *)
+  c_len20 : list acct ;    (* accounts whose address is 20 bytes long *)
   c_bal0 : list (acct * Z) ;
   c_ops : list op ;
   c_obs : list obs
@@ -29,7 +31,8 @@ Definition tx_lookup (l : list (txid * txinfo)) (x : txid) : txinfo :=
   match find (fun p => N.eqb p.1 x) l with Some p => p.2 | None => no_tx end.
 
 Definition case_env (c : case) : env :=
-  {| e_wits := c_wits c; e_cap := c_cap c; e_supply := c_supply c; e_tx := tx_lookup (c_txs c) |}.
+  {| e_wits := c_wits c; e_cap := c_cap c; e_supply := c_supply c; e_tx := tx_lookup (c_txs c);
+     e_key := fun a => existsb (N.eqb a) (c_keys c); e_len20 := fun a => existsb (N.eqb a) (c_len20 c) |}.
 
 Definition list_eqb {A} (eqb : A -> A -> bool) : list A -> list A -> bool :=
   fix go a b := match a, b with
@@ -78,7 +81,7 @@ Definition names_ok (s : state) (o : op) : bool :=
 Fixpoint first_mismatch (E : env) (s prev : state) (ops : list op) (os : list obs) (i : nat) : option nat :=
   match ops, os with
   | o :: ops', b :: os' =>
-      let '(s', r) := step E s o in
+      let '(s', r) := vstep E s o in
       let cur := obs_apply prev b in
       if names_ok s o && out_matches r (o_ok b) && state_matches s' cur
       then first_mismatch E s' cur ops' os' (S i) else Some i
@@ -267,7 +270,9 @@ Definition step_findings (E : env) (touched : bool) (minted refunded : list name
    | None => []
    end) ++
   (if k_crossing E pre o post ok then [] else [(6%nat, 0%nat)]) ++
-  (if k_created E pre o post then [] else [(7%nat, 0%nat)]).
+  (if k_created E pre o post then [] else [(7%nat, 0%nat)]) ++
+  (* K9: a transaction that its kind's Validate refuses has no effect *)
+  (if valid E o || (negb ok && state_matches pre post) then [] else [(9%nat, 0%nat)]).
 
 Fixpoint monitor (E : env) (touched : bool) (minted refunded : list name) (pre : state)
          (ops : list op) (os : list obs) (i : nat) : list (nat * nat * nat) :=
@@ -297,7 +302,7 @@ Fixpoint spec_violations (i : nat) (cs : list case) : list (nat * nat * nat * na
 Fixpoint stats_run (E : env) (s : state) (ops : list op) (acc : list Z) : list Z :=
   match ops, acc with
   | o :: ops', [g; cy; cn; ll; ts] =>
-      let s' := (step E s o).1 in
+      let s' := (vstep E s o).1 in
       let acc' :=
         match o with
         | Report n l v idx b =>
